@@ -389,7 +389,7 @@ impl Space for Lookups {
     fn gen(&self, ctx: &mut Ctx) -> Option<LCase> {
         let (family, host, tmpl, mk) = FAMILIES[ctx.choose(FAMILIES.len())];
         let present = ctx.subset(3); // default, T, U
-        if present.iter().filter(|x| **x).count() < 2 {
+        if present.iter().filter(|x| **x).count() < if family == "variant-ghost-bare" { 1 } else { 2 } {
             return ctx.reject();
         }
         if family == "variant-type_hint" && present[2] {
@@ -440,6 +440,9 @@ impl Space for Lookups {
             }
         };
         rep.validate(1);
+        if std::env::var("O2OV_DEBUG_LOOKUPS").is_ok() && c.family == "variant-ghost-bare" {
+            eprintln!("DEBUG {:?} :: {}", c.instrs, c.input.replace('\n', " "));
+        }
         if c.family == "variant-ghost-bare" {
             // the variant is a ghost for a counterpart iff an instruction dedicated to it, or the default one, is present
             for cp in c.cps {
@@ -447,7 +450,7 @@ impl Space for Lookups {
                 let cp_canon = crate::xp::atoms_of_str(cp).map(|a| a.join(" ")).unwrap_or_default();
                 for i in impls.iter().filter(|i| i.trait_args.first().map(|a| a.trim_start_matches("& ") == cp_canon).unwrap_or(false)) {
                     let is_into = i.trait_path.last().map_or(false, |t| t == "Into" || t == "TryInto");
-                    let has_arm = i.text.contains("S :: A (");
+                    let has_arm = i.text.contains("S : : A (");
                     // Into: a ghost variant has no arm of its own; From: a ghost variant is never produced
                     if has_arm == applies {
                         let mut tags = c.tags.clone();
